@@ -100,6 +100,14 @@ def run_case(case, ctx):
     if np.linalg.cond(U) > 60:
         ctx.skip("design not well conditioned")
         return
+    # the same problem recorded in other units (design and data scaled alike): the minimiser does not change, so no absolute
+    # threshold inside a solver may decide anything; absolute parameters (penalties, the active-set gradient tolerance) are
+    # scaled with the problem
+    unit = float(gen.choice(rs, [1.0] * 6 + [1e-9, 1e6])) if solver != "admm_ls" else 1.0
+    if unit != 1.0:
+        U, M = U * unit, M * unit
+        ctx.count("problems_in_other_units")
+    u2 = unit * unit
     UtU, UtM = U.T @ U, U.T @ M
     ctx.count("checked/%s" % solver)
     desc = {"solver": solver, "n": n, "k": k, "class": cls, "cond": round(float(np.linalg.cond(U)), 2)}
@@ -129,11 +137,11 @@ def run_case(case, ctx):
             ctx.count("kkt_certified")
         return
 
-    ls = float(gen.choice(rs, [0.0, 0.0, 0.1, 1.0])) if solver != "active_set" else 0.0
-    lr = float(gen.choice(rs, [0.0, 0.0, 0.1, 1.0])) if solver != "active_set" else 0.0
+    ls = float(gen.choice(rs, [0.0, 0.0, 0.1, 1.0])) * u2 if solver != "active_set" else 0.0
+    lr = float(gen.choice(rs, [0.0, 0.0, 0.1, 1.0])) * u2 if solver != "active_set" else 0.0
     start = gen.choice(rs, ["cold", "cold", "warm-random", "warm-zero", "warm-solution"] if solver != "active_set" else
                        ["cold", "warm-random", "warm-random", "warm-random", "warm-zero", "warm-solution"])
-    Xref = reference(UtU, UtM, ls, lr)
+    Xref = reference(UtU / u2, UtM / u2, ls / u2, lr / u2)   # the reference is computed in unit scale (same minimiser)
     if start == "cold":
         x0 = None
     elif start == "warm-random":
@@ -142,7 +150,7 @@ def run_case(case, ctx):
         x0 = np.zeros((n, k))
     else:
         x0 = Xref.copy()
-    desc.update(l1=ls, ridge=lr, start=start)
+    desc.update(l1=ls, ridge=lr, start=start, unit=unit)
     n_active = int(np.sum(Xref <= 1e-12))
     if n_active or ls or lr:
         ctx.nontriv(dict(desc, h=float(np.sum(M))))
@@ -199,7 +207,7 @@ def run_case(case, ctx):
         v0 = UtM[:, 0].copy()
         if shared:
             v0.setflags(write=False)
-        X = active_set_nnls(v0, give(UtU), x=xv, n_iter_max=1000)
+        X = active_set_nnls(v0, give(UtU), x=xv, n_iter_max=1000, tol=1e-7 * u2)
         X = np.asarray(X).reshape(n, 1)
     X = np.asarray(X, dtype=float)
     icls = ("allzero-solution" if not np.any(Xref) else "generic") + "+" + ("cold" if x0 is None else "warm")
@@ -211,12 +219,12 @@ def run_case(case, ctx):
         ctx.violation("C13:%s:non-negative:%s" % (solver, icls), "%s returned a negative entry %r" % (solver, float(X.min())), {"desc": desc, "UtU": UtU, "UtM": UtM, "got": X})
         return
     g = UtU @ X - UtM + ls + 2 * lr * X
-    gscale = 1.0 + float(np.max(np.abs(UtM))) + float(np.linalg.norm(UtU, 2)) * float(np.max(np.abs(X)))
+    gscale = u2 + float(np.max(np.abs(UtM))) + float(np.linalg.norm(UtU, 2)) * float(np.max(np.abs(X)))
     ktol = 1e-6 * gscale
     at_bound = X <= bound_eps * 2 + 1e-12
     kkt = bool(np.all(g[at_bound] >= -ktol) and np.all(np.abs(g[~at_bound]) <= ktol))
     f_got, f_ref = objective(UtU, UtM, X, ls, lr), objective(UtU, UtM, Xref, ls, lr)
-    fscale = 1.0 + abs(f_ref) + float(0.5 * np.sum(M * M))
+    fscale = u2 + abs(f_ref) + float(0.5 * np.sum(M * M))
     matched = f_got <= f_ref + 1e-6 * fscale + 10 * bound_eps * gscale * X.size
     if kkt:
         ctx.count("kkt_certified")
